@@ -712,7 +712,7 @@ def _history(w, r, rec, nevents, want_model, parse_gitlog, snap_of, deadline=Non
                 changed = True
         elif k < 0.62 and gd:
             d, path = r.choice(gd)
-            desc = user_op(w, r, path, ledger)
+            desc = user_op(w, r, path, ledger, norm(d))
             tag_ledger(d)
             cache.clear()
             touched.add(norm(d))
@@ -743,7 +743,7 @@ def _history(w, r, rec, nevents, want_model, parse_gitlog, snap_of, deadline=Non
         gd = git_dirs()
         if gd and used:
             d, path = r.choice(gd)
-            desc = user_op(w, r, path, ledger)
+            desc = user_op(w, r, path, ledger, norm(d))
             tag_ledger(d)
             cache.clear()
             touched.add(norm(d))
@@ -763,7 +763,7 @@ def _history(w, r, rec, nevents, want_model, parse_gitlog, snap_of, deadline=Non
             # prefer a nested clone: its parent goes to the attic and takes it along
             nested_gd = [x for x in gd if any(y[0] != x[0] and is_prefix(y[0], x[0]) for y in gd)]
             d, path = r.choice(nested_gd) if nested_gd and r.random() < 0.75 else r.choice(gd)
-            desc = user_op(w, r, path, ledger)
+            desc = user_op(w, r, path, ledger, norm(d))
             tag_ledger(d)
             cache.clear()
             touched.add(norm(d))
@@ -785,6 +785,25 @@ def _history(w, r, rec, nevents, want_model, parse_gitlog, snap_of, deadline=Non
             changed = True
             bob_event("dev", ["dev", "root"])
             bob_event("clean-attic", ["clean", "--attic"])
+    elif not rec.get("cut") and tail < 0.87 and used and os.path.isdir(wsroot) and \
+            not any(norm(s_["dir"]) == "." for s_ in specs) and len(specs) < 4:
+        # the user's own directory where the recipe then wants a checkout: Bob has to refuse (collision)
+        free = [d for d in ("a", "b", "sub", "nest", "own") if not os.path.exists(os.path.join(wsroot, d))
+                and not any(is_prefix(d, s_["dir"]) or is_prefix(s_["dir"], d) for s_ in specs)]
+        if free:
+            d = r.choice(free)
+            os.makedirs(os.path.join(wsroot, d))
+            tok = w.token("own")
+            with open(os.path.join(wsroot, d, "own%d.txt" % w.counter), "w") as fh:
+                fh.write(tok + "\n")
+            ledger.append({"kind": "file", "token": tok, "name": "own%d.txt" % w.counter, "dir": d})
+            rec["log"].append("user-mkdir " + d)
+            touched.add(d)
+            specs = [dict(s_) for s_ in specs] + [gen_git_spec(r, w, d)]
+            write_recipes(w, specs, used, policies)
+            rec["log"].append("add-scm-at-user-dir " + d)
+            changed = True
+            bob_event("dev", ["dev", "root"])
     # ---- final: converge check
     if not used:
         used = True
@@ -796,7 +815,12 @@ def _history(w, r, rec, nevents, want_model, parse_gitlog, snap_of, deadline=Non
     rec["ledger"] = len(ledger)
 
 
-def user_op(w, r, path, ledger):
+def user_op(w, r, path, ledger, scope=None):
+    """one user operation in the clone at `path`.  `scope`: the ledger `dir` of this clone (None: all items)."""
+    def committed():
+        # `git add -A` + commit: dirty, staged and untracked files of this clone are now part of the commit (which
+        # is tracked by its id); they leave the work tree whenever another commit is checked out
+        ledger[:] = [it for it in ledger if not (it["kind"] == "file" and (scope is None or it.get("dir") == scope))]
     k = r.random()
     rc, tracked = w.git(path, "ls-files", check=False)
     tracked = [f for f in tracked.split() if f != ".gitignore"]
@@ -832,6 +856,7 @@ def user_op(w, r, path, ledger):
             rc, sha = w.git(path, "rev-parse", "HEAD")
             w.user_commits.add(sha.strip())
             w.index_commits(path)
+            committed()
             ledger.append({"kind": "commit", "sha": sha.strip()})
             return "commit " + sha.strip()[:8]
         return "commit failed"
@@ -847,6 +872,7 @@ def user_op(w, r, path, ledger):
         rc, sha = w.git(path, "rev-parse", "HEAD")
         w.user_commits.add(sha.strip())
         w.index_commits(path)
+        committed()
         ledger.append({"kind": "commit", "sha": sha.strip()})
         if r.random() < 0.5:
             w.git(path, "checkout", "-q", "-", check=False)
@@ -881,6 +907,7 @@ def user_op(w, r, path, ledger):
             rc2, sha = w.git(path, "rev-parse", "HEAD")
             w.user_commits.add(sha.strip())
             w.index_commits(path)
+            committed()
             ledger.append({"kind": "commit", "sha": sha.strip()})
             return "detach %s + commit %s" % (c[:8], sha.strip()[:8])
     return "detach %s rc=%d" % (c[:8], rc)
